@@ -303,10 +303,12 @@ pub fn run_c10(ctx: &Ctx) -> i32 {
 
 // (white space is what `char::is_whitespace` says: U+00A0, U+2003, U+0085 and the vertical tab U+000B
 // count, so a key or type made of them is blank)
-const C13_STRINGS: [&str; 32] = ["", " ", "\t\n", "_", "_a", " _a", "a_", "a", " a ", "__", "é", "_é", "ab", "a ", "-", "  ", "x", " x ", "éé", "a_b", " ab ", "\n_k",
+const C13_STRINGS: [&str; 36] = ["", " ", "\t\n", "_", "_a", " _a", "a_", "a", " a ", "__", "é", "_é", "ab", "a ", "-", "  ", "x", " x ", "éé", "a_b", " ab ", "\n_k",
     "\u{a0}", "\u{2003}_x", "\u{a0}e", "\u{b}x\u{b}", "\u{85}ab\u{2003}", "\u{3000}", "a\u{a0}b",
     // the one reserved key the simulator writes itself, and its neighbours
-    "_contract_address", " _contract_address ", "_contract_addr"];
+    "_contract_address", " _contract_address ", "_contract_addr",
+    // event types that look like the prefix the simulator adds, or like a module's own event
+    "wasm-x", "wasm-", "wasm", "transfer"];
 const C13_POS: [&str; 7] = ["attr-key", "attr-value", "event-attr-key", "event-attr-value", "event-type", "attr-key-with-empty-value", "event-attr-key-with-blank-value"];
 
 fn c13_node(pos: usize, s: &str, idx: usize) -> Node {
@@ -602,7 +604,7 @@ pub fn run_c13(ctx: &Ctx) -> i32 {
         &st,
         use_starts.len(),
         &sampler,
-        json!({"strings": strings.len(), "hand_picked_strings": C13_STRINGS, "generated_strings": if ctx.tier == Tier::Thorough { "every string of 1..=3 characters over {space, newline, underscore, a, é}" } else { "none (thorough tier only)" }, "positions": C13_POS, "entry_points": ["execute", "instantiate", "migrate", "sudo", "reply"], "contexts": "top level; sub-message under each reply_on; two levels deep under each reply_on; reply handler of ok/failed child under Success/Always/Error, one and two levels deep",
+        json!({"strings": strings.len(), "hand_picked_strings": C13_STRINGS.to_vec(), "generated_strings": if ctx.tier == Tier::Thorough { "every string of 1..=3 characters over {space, newline, underscore, a, é}" } else { "none (thorough tier only)" }, "positions": C13_POS, "entry_points": ["execute", "instantiate", "migrate", "sudo", "reply"], "contexts": "top level; sub-message under each reply_on; two levels deep under each reply_on; reply handler of ok/failed child under Success/Always/Error, one and two levels deep",
                "cases_with_invalid_string": invalid, "cases_with_valid_string": valid}),
         vec![],
         vec!["white space is taken as Unicode white space (char::is_whitespace), which is what trimming a Rust string means; the alphabet has ASCII and non-ASCII white space".into()],
